@@ -43,19 +43,22 @@ var packPrims = map[string]reflect.Type{"bool": reflect.TypeOf(true), "int8": re
 	"int16": reflect.TypeOf(int16(0)), "int32": reflect.TypeOf(int32(0)), "int": reflect.TypeOf(int(0)), "uint8": reflect.TypeOf(uint8(0)),
 	"uint16": reflect.TypeOf(uint16(0)), "uint32": reflect.TypeOf(uint32(0)), "uint": reflect.TypeOf(uint(0)), "float32": reflect.TypeOf(float32(0))}
 
-func buildType(t tdesc) reflect.Type {
+func buildType(t tdesc) reflect.Type { return buildTypeTag(t, "config") }
+
+// buildTypeTag: the struct tags are written under the given key (the StructTag option names the key that counts)
+func buildTypeTag(t tdesc, key string) reflect.Type {
 	if p, ok := packPrims[t.K]; ok {
 		return p
 	}
 	switch t.K {
 	case "ptr":
-		return reflect.PtrTo(buildType(*t.E))
+		return reflect.PtrTo(buildTypeTag(*t.E, key))
 	case "slice":
-		return reflect.SliceOf(buildType(*t.E))
+		return reflect.SliceOf(buildTypeTag(*t.E, key))
 	case "array":
-		return reflect.ArrayOf(t.N, buildType(*t.E))
+		return reflect.ArrayOf(t.N, buildTypeTag(*t.E, key))
 	case "map":
-		return reflect.MapOf(reflect.TypeOf(""), buildType(*t.E))
+		return reflect.MapOf(reflect.TypeOf(""), buildTypeTag(*t.E, key))
 	case "struct":
 		fs := make([]reflect.StructField, len(t.F))
 		for i, f := range t.F {
@@ -63,11 +66,28 @@ func buildType(t tdesc) reflect.Type {
 			if f.Mode != "" {
 				tag += "," + f.Mode
 			}
-			fs[i] = reflect.StructField{Name: f.N, Type: buildType(f.T), Tag: reflect.StructTag(fmt.Sprintf(`config:"%s"`, tag))}
+			fs[i] = reflect.StructField{Name: f.N, Type: buildTypeTag(f.T, key), Tag: reflect.StructTag(fmt.Sprintf(`%s:"%s"`, key, tag))}
 		}
 		return reflect.StructOf(fs)
 	}
 	panic("type " + t.K)
+}
+
+// stripTags: the type as the library sees it when its tags are written under a key that does not count
+func stripTags(t tdesc) tdesc {
+	out := t
+	if t.E != nil {
+		e := stripTags(*t.E)
+		out.E = &e
+	}
+	if len(t.F) > 0 {
+		out.F = append(out.F[:0:0], t.F...)
+		for i := range out.F {
+			out.F[i].Tag, out.F[i].Mode = nil, ""
+			out.F[i].T = stripTags(out.F[i].T)
+		}
+	}
+	return out
 }
 
 func rawStr(raw json.RawMessage) string { var s string; json.Unmarshal(raw, &s); return s }
@@ -249,6 +269,8 @@ type packCase struct {
 		Ideal json.RawMessage `json:"ideal"`
 		Alts  []altExp        `json:"alts"`
 	} `json:"exp"`
+	TagKey    string `json:"tagkey"`    // the key the type's tags are written under ("" = config)
+	StructTag string `json:"structtag"` // the StructTag option ("" = not given)
 }
 
 type packObs struct {
@@ -275,11 +297,19 @@ func packReplay(args []string) int {
 		rep.nontrivial(raw[:len(raw)/2])
 		var o packObs
 		var rt reflect.Type
+		opts := []ucfg.Option{sep}
+		if c.StructTag != "" {
+			opts = append(opts, ucfg.StructTag(c.StructTag))
+			rep.class("structtag-option")
+		}
+		if c.TagKey == "" {
+			c.TagKey = "config"
+		}
 		panicked, msg := guard(func() {
-			rt = buildType(c.Ty)
+			rt = buildTypeTag(c.Ty, c.TagKey)
 			v := buildVal(c.Ty, c.Val, rt)
 			o.Orig = fmt.Sprintf("%+v", v.Interface())
-			cfg, err := ucfg.NewFrom(v.Interface(), sep)
+			cfg, err := ucfg.NewFrom(v.Interface(), opts...)
 			if err != nil {
 				o.Stage, o.Msg = "pack", err.Error()
 				return
@@ -299,7 +329,7 @@ func packReplay(args []string) int {
 				return
 			}
 			back := reflect.New(rt)
-			if err := cfg.Unpack(back.Interface(), sep); err != nil {
+			if err := cfg.Unpack(back.Interface(), opts...); err != nil {
 				o.Stage, o.Msg = "typed-unpack", err.Error()
 				return
 			}
@@ -323,7 +353,11 @@ func packReplay(args []string) int {
 			if o.Stage != "" {
 				return false
 			}
-			return eqPack(c.Ty, buildVal(c.Ty, *e.Ok, rt), o.back)
+			ety := c.Ty
+			if want := c.StructTag; (want == "" && c.TagKey != "config") || (want != "" && want != c.TagKey) {
+				ety = stripTags(c.Ty) // the tags do not count: no field is renamed, inlined or ignored
+			}
+			return eqPack(ety, buildVal(c.Ty, *e.Ok, rt), o.back)
 		}
 		rep.class("stage:" + o.Stage)
 		rep.classify(raw, c.Exp.Ideal, c.Exp.Alts, eq, func() interface{} { return o }, "roundtrip")
